@@ -67,7 +67,8 @@ pub enum Op {
     /// n restarts in a row without a tick in between (counters that wrap)
     RestartBurst { n: u16, clear: bool },
     /// the column text (plus a trailing space) is parsed again with stricter settings (Ignore -> Smart ->
-    /// Respect, normalization Smart -> Never) and `append = true`: every new match is an old match
+    /// Respect, normalization Smart -> Never) and `append = true`: every new match is an old match (skipped when the
+    /// text contains a negation marker)
     ReparseStricter { col: u8 },
 }
 
@@ -725,7 +726,8 @@ impl<'h> Machine<'h> {
                         2 => (0, nm % 2),
                         _ => (0, 0u8),
                     };
-                    if stricter != (cm % 3, nm % 2) {
+                    // (a negated atom that gets stricter lets MORE items through: the append hint would be a lie)
+                    if stricter != (cm % 3, nm % 2) && !self.texts[col].contains('!') {
                         let mut text = self.texts[col].clone();
                         if !text.ends_with('\\') {
                             text.push(' ');
